@@ -15,7 +15,7 @@ RULE = ("one evaluation = one (stack shape, construction route, operation): shap
 ASSUMPTIONS = ["siblings of an emitting/consuming sublayer inside the same group are unspecified by the statement: only 'at most once' is required of them",
                "for a deferred event only layers beyond the first receiving item are required to wait for the loop",
                "the deferred queue is shared by all stacks of a process; it is drained between cases"]
-REQUIRED = ["published_tuple_stacks", "first_login_stacks", "first_login_ok", "libstack_stacks", "libstack_ok", "libstack_events_up", "libstack_events_down", "emitter_stacks", "emitter_cycles", "emitter_ok", "own_stack_interface_lookups", "passthrough_compositions", "passthrough_ok", "earlier_stacks_rechecked", "earlier_stacks_intact", "shape_ops", "event_ops", "detached_ops", "helper_combos", "default_stack_combos", "interface_lookups", "groups_seen"]
+REQUIRED = ["transport_event_cases", "transport_event_ok", "transport_event_state:half-frame", "published_tuple_stacks", "first_login_stacks", "first_login_ok", "libstack_stacks", "libstack_ok", "libstack_events_up", "libstack_events_down", "emitter_stacks", "emitter_cycles", "emitter_ok", "own_stack_interface_lookups", "passthrough_compositions", "passthrough_ok", "earlier_stacks_rechecked", "earlier_stacks_intact", "shape_ops", "event_ops", "detached_ops", "helper_combos", "default_stack_combos", "interface_lookups", "groups_seen"]
 EXHAUSTIVE = None
 
 LOG = []
@@ -892,6 +892,57 @@ def first_login_events(acc, r, n, prop=None):
             W.close()
 
 
+def transport_layers_event_pass(acc, r, n, stackmod):
+    """The library's transport layers (framing, Noise, coder, logger) between a probe below and recording layers above, in the
+    states a connection leaves them in (a frame half received, a frame just completed, nothing received): the deferred
+    'disconnected' announcement and plain events pass them and are seen once by every layer above."""
+    import struct
+    from vf.probes import Probe
+    from yowsup.stacks import YowStack
+    from yowsup.layers import YowLayerEvent
+    from yowsup.layers.network import YowNetworkLayer
+    from yowsup.layers.noise.layer_noise_segments import YowNoiseSegmentsLayer
+    from yowsup.layers.coder import YowCoderLayer
+    from yowsup.layers.logger import YowLoggerLayer
+    D = YowNetworkLayer.EVENT_STATE_DISCONNECTED
+    for k in range(n):
+        mids = r.choice([[YowNoiseSegmentsLayer], [YowNoiseSegmentsLayer, YowLoggerLayer], [YowNoiseSegmentsLayer]])
+        bottom = Probe("bottom", forward_down=False)
+        INSTANCES.clear()
+        del LOG[:]
+        ups_ = {"U1": Probe("U1"), "U2": Probe("U2", forward_up=False)}
+        st = YowStack(tuple([bottom] + mids + [ups_["U1"], ups_["U2"]]), reversed=False, props={YowNoiseSegmentsLayer.PROP_ENABLED: True})
+        state = r.choice(["half-frame", "half-header", "complete-frame", "nothing"])
+        w = {"helper": "transport-event-pass", "layers": [m.__name__ for m in mids], "state": state}
+        acc.count("transport_event_cases")
+        acc.count("transport_event_state:" + state)
+        acc.case(["tep", w["layers"], state, k], nontrivial=True)
+        try:
+            payload = bytes(r.getrandbits(8) for _ in range(r.randint(4, 40)))
+            frame = struct.pack(">I", len(payload))[1:] + payload
+            if state == "half-frame":
+                bottom.receive(frame[:r.randint(4, len(frame) - 1)])
+            elif state == "half-header":
+                bottom.receive(frame[:r.randint(1, 2)])
+            elif state == "complete-frame":
+                bottom.receive(frame)
+            for p_ in ups_.values():
+                p_.clear()
+            for rep in range(2):
+                bottom.emitEvent(YowLayerEvent(D, reason="x", detached=True))
+                pump(stackmod)
+                bottom.emitEvent(YowLayerEvent("verif.plain"))
+            seen = {m: (p_.event_names().count(D), p_.event_names().count("verif.plain")) for m, p_ in ups_.items()}
+        except Exception as e:  # noqa
+            acc.violation("transport-event-raises:%s" % type(e).__name__, "events through the transport layers raised %r" % (e,), w)
+            continue
+        if any(v != (2, 2) for v in seen.values()):
+            acc.violation("transport-event-pass:%s" % state, "with %s in the framing layer, two 'disconnected' announcements and two plain events emitted below %s were seen %s above them (expected 2 and 2 each)"
+                          % (state.replace("-", " "), w["layers"], seen), w)
+        else:
+            acc.count("transport_event_ok")
+
+
 def shards(tier, seed, nworkers):
     q = tier == "quick"
     specs = [{"kind": "helpers"}]
@@ -915,6 +966,7 @@ def run(spec, acc):
         library_emitter_cycles(acc, gen.rng(seed, ID, "emitter"), 150, stackmod)
         library_stack_events(acc, gen.rng(seed, ID, "libstack"), 120)
         first_login_events(acc, gen.rng(seed, ID, "firstlogin"), 8)
+        transport_layers_event_pass(acc, gen.rng(seed, ID, "transportev"), 120, stackmod)
         acc.sample({"helpers": "getProtocolLayers/getDefaultLayers x 16 flag combos, getDefaultStack x 32 x {no layer, layer}, positional args, pushDefaultLayers"})
         return
     if spec["kind"] == "exhaustive":
